@@ -740,6 +740,27 @@ impl WorldC {
                 _ => {}
             }
         }
+        // C05: a new proposal carries the multisig's configured threshold rule
+        if let Ok(cfg_th) = self.chain.query::<ThresholdResponse>(&m.label, &json!({"threshold":{}})) {
+            let same_rule = match (&cfg_th, &p.threshold) {
+                (ThresholdResponse::AbsoluteCount { weight: a, .. }, ThresholdResponse::AbsoluteCount { weight: b, .. }) => a == b,
+                (ThresholdResponse::AbsolutePercentage { percentage: a, .. }, ThresholdResponse::AbsolutePercentage { percentage: b, .. }) => a == b,
+                (
+                    ThresholdResponse::ThresholdQuorum { threshold: a, quorum: qa, .. },
+                    ThresholdResponse::ThresholdQuorum { threshold: b, quorum: qb, .. },
+                ) => a == b && qa == qb,
+                _ => false,
+            };
+            if !same_rule {
+                self.viol(
+                    out,
+                    "C05",
+                    "proposal-threshold-ne-config",
+                    json!({}),
+                    format!("proposal {} was created with {:?}, the multisig is configured with {:?}", p.id, p.threshold, cfg_th),
+                );
+            }
+        }
         // C05: the stored proposal is exactly what the (single) committed Propose of this transaction asked for
         if let Some((evs, r, _)) = ctx {
             if r.ok {
